@@ -1,5 +1,6 @@
 CONSTANTS
   LitPlusSet = {TRUE, FALSE}
+  Utf8Set = {TRUE, FALSE}
   MaxDepth = 2
   GenUnits <- AllUnits
 INIT GenInit
